@@ -356,4 +356,13 @@ def proof_stage(run, extra_obligation_names=()):
         run.tie_broken("theorem", n, "depends on non-standard axioms %s" % a)
     if not aud:
         raise InfraError("audit found no theorems in Props/%s.lean" % run.prop)
+    if run.tier == "thorough":
+        # independent re-check of the compiled theorems by the toolchain's external checker (replays every declaration of the module through the kernel)
+        mods = ["AtsimModel.Props.%s" % run.prop] + {"C09": ["AtsimModel.Props.C09Roundtrip"], "C06": ["AtsimModel.Lemmas.ExprReal"], "C07": ["AtsimModel.Lemmas.ExprReal"],
+                                                     "C10": ["AtsimModel.Lemmas.ExprReal"]}.get(run.prop, [])
+        t0 = time.time()
+        rc, out, err = _run(["lake", "env", "leanchecker"] + mods, cwd=LEAN_DIR, timeout=1800)
+        if rc != 0:
+            run.tie_broken("theorem", "leanchecker " + " ".join(mods), (out + err)[-400:])
+        run.notes.append("leanchecker %s: %s (%.1fs)" % (" ".join(mods), "accepted" if rc == 0 else "REJECTED", time.time() - t0))
     return b
